@@ -336,6 +336,115 @@ func (g *brokerGen) unsubRaceSeq(a, p *bConn) int {
 	return lines
 }
 
+// freeCid: a client identifier "c<k>" (two characters, like every identifier of the vocabulary)
+// that no live connection uses and that is not in `not`
+func (g *brokerGen) freeCid(not ...string) string {
+	for {
+		cid := fmt.Sprintf("c%d", 1+g.r.Intn(9))
+		ok := true
+		for _, c := range g.live {
+			if c.cid == cid {
+				ok = false
+			}
+		}
+		for _, x := range not {
+			if x == cid {
+				ok = false
+			}
+		}
+		if ok {
+			return cid
+		}
+	}
+}
+
+// hsRaceSeq: two overlapping handshakes (`hsrace`) and what makes a mix-up between them visible.
+// A persistent session is stored under identifier cV (CleanSession 0, one subscription), its
+// connection ends.  Connection a (identifier cA, clean, user name "slow": held inside Authenticate)
+// and connection b overlap; b's first packet is mostly a CONNECT that presents cV and is refused
+// (user name "deny": CONNACK 4), sometimes a malformed one, sometimes an acceptable one under an
+// identifier of its own.  Then a subscribes, publishes, disconnects, and the client of cV comes
+// back with CleanSession 0: it must find its session (SessionPresent 1) and its subscription must
+// still deliver - whatever b sent had no effect on what a was connected as.  All identifiers have
+// the same length, so the CONNECT packets have the same layout.  Returns the number of op lines.
+func (g *brokerGen) hsRaceSeq() int {
+	r := g.r
+	cV := g.freeCid()
+	cA := g.freeCid(cV)
+	f := pick(r, g.filts)
+	var topic string
+	for _, nm := range g.names {
+		if filterMatches(f, nm) {
+			topic = nm
+		}
+	}
+	lines := 0
+	connect := func(id int, clean int, cid string) {
+		g.emit("first %d connect %s 4 0 %d ~ 0 0 %s ~ ~ 30 1", id, hexStr("MQTT"), clean, hexStr(cid))
+		lines++
+	}
+	g.next++
+	v := g.next
+	connect(v, 0, cV)
+	g.pid++
+	g.emit("pkt %d subscribe %d %s:%d", v, 1+g.pid%65535, hexStr(f), 1+r.Intn(2))
+	g.emit("pkt %d %s", v, pick(r, []string{"disconnect", "disconnect", "pingreq"}))
+	g.emit("close %d", v)
+	lines += 3
+	g.next += 2
+	a, b := g.next-1, g.next
+	var first []byte
+	bLive := ""
+	deny, slow := []byte("deny"), hexStr("slow")
+	if r.Intn(4) == 0 {
+		slow = hexStr(fmt.Sprintf("slow%d", r.Intn(10)))
+	}
+	cb := wConnect{protoName: []byte("MQTT"), version: 4, clean: r.Intn(2) == 0, clientID: []byte(cV), user: &deny, keepAlive: 30}
+	switch k := r.Intn(10); {
+	case k < 6: // refused: bad user name
+		if r.Intn(3) == 0 {
+			cb.will = &wWill{topic: []byte(pick(r, g.names)), payload: []byte("forged"), qos: r.Intn(3)}
+		}
+	case k < 8: // refused or dropped by the decoder
+		cb.user = nil
+		switch r.Intn(3) {
+		case 0:
+			cb.version = 5
+		case 1:
+			cb.reserved = true
+		default:
+			cb.protoName = []byte("MQTX")
+		}
+	default: // accepted, under an identifier of its own
+		bLive = g.freeCid(cV, cA)
+		cb.user, cb.clientID, cb.clean = nil, []byte(bLive), true
+	}
+	first = cb.encode()
+	g.emit("hsrace %d connect %s 4 0 1 ~ 0 0 %s %s ~ 30 1 ; %d %s", a, hexStr("MQTT"), hexStr(cA), slow, b, hexOf(first))
+	lines++
+	ca := &bConn{id: a, cid: cA}
+	g.live = append(g.live, ca)
+	if bLive != "" {
+		g.live = append(g.live, &bConn{id: b, cid: bLive})
+	}
+	g.pid++
+	g.emit("pkt %d subscribe %d %s:%d", a, 1+g.pid%65535, hexStr(pick(r, g.filts)), r.Intn(3))
+	g.emit("pkt %d publish 0 0 0 %s 0 %s", a, hexStr(pick(r, g.names)), g.smallPayload())
+	g.emit("pkt %d disconnect", a)
+	g.remove(ca)
+	lines += 3
+	g.next++
+	v2 := g.next
+	connect(v2, 0, cV)
+	cv := &bConn{id: v2, cid: cV, subs: []string{f}}
+	g.live = append(g.live, cv)
+	if topic != "" {
+		g.emit("pkt %d publish 0 %d 0 %s %d %s", pick(r, g.live).id, 1, hexStr(topic), 1+r.Intn(12), g.smallPayload())
+		lines++
+	}
+	return lines
+}
+
 func (g *brokerGen) smallPayload() string {
 	b := make([]byte, 1+g.r.Intn(5))
 	g.r.Read(b)
@@ -402,10 +511,19 @@ func genBroker(p brokerProfile, seed int64, n int, tier string, w *bufio.Writer)
 		if p.unsubRacePer > 0 && r.Intn(p.unsubRacePer) == 0 {
 			unsubRaceAt = r.Intn(eplen)
 		}
+		hsRaceAt := -1
+		if p.hsRacePer > 0 && r.Intn(p.hsRacePer) == 0 {
+			hsRaceAt = r.Intn(eplen)
+		}
 		g.connect()
 		done++
 		for i := 0; i < eplen && done < n; i++ {
 			done++
+			if hsRaceAt >= 0 && i >= hsRaceAt && len(g.live) <= 4 && !g.allowOverlap {
+				hsRaceAt = -1
+				done += g.hsRaceSeq() - 1
+				continue
+			}
 			if unsubRaceAt >= 0 && i >= unsubRaceAt && len(g.live) >= 2 {
 				unsubRaceAt = -1
 				a := pick(r, g.live)
@@ -416,7 +534,7 @@ func genBroker(p brokerProfile, seed int64, n int, tier string, w *bufio.Writer)
 				done += g.unsubRaceSeq(a, pb) - 1
 				continue
 			}
-			if len(g.repubFilters) > 0 && r.Intn(12) == 0 {
+			if len(g.repubFilters) > 0 && r.Intn(16) == 0 {
 				g.repubSub()
 				continue
 			}
